@@ -25,6 +25,21 @@ CLAIMS = {
             'DESIGN.md section 5, C09'),
 }
 
+CLAIMS['C16'] = ('proof',
+    'interprocedural abstract interpretation over clang CFGs (non-NUL look-ahead domain, callee summaries, recursion fixpoint), loop-progress rule, call-graph throw-type rule',
+    "Proof of the memory-safety and termination clauses: an abstract interpreter over the CFGs of every function reachable "
+    "from parseXML (domain: number of leading bytes known non-NUL, anchor byte behind the cursor, excluded byte values; "
+    "branch refinement on character tests incl. user predicates through their own summaries; fixpoint for parseNode's "
+    "recursion) shows that for every byte string in a NUL-terminated buffer the cursor never passes the terminator, no "
+    "byte outside the buffer is read (forwards or backwards), and every loop iteration consumes input; readXML is shown "
+    "to build that NUL-terminated buffer and every throw reachable from it to be std::runtime_error. Obligations = one per "
+    "analysed function and clause; all must be discharged. The faithfulness clause (returned tree equals the generating "
+    "tree) is a value-level property and is not decided.",
+    "Trusted: clang 14 CFG; isalpha/isdigit/isspace are false at NUL; the abstract transfer functions of the rule engine "
+    "(exercised by 11 seeded mutants / 4 benign rewrites). Not decided: tree faithfulness, recursion depth, exceptions "
+    "raised inside the standard library (bad_alloc), non-regular files where ftell fails.",
+    'DESIGN.md section 5, C16')
+
 NOT_CLAIMED = {}
 
 PENDING = ("check not built yet in this revision of /verif (planned static rules are described in DESIGN.md section 5); "
